@@ -10,6 +10,11 @@
    TraceScoreAssign.tla validates
  * route drivers for mode C and the geometry cases of refinegrains.assignlabels (per-grain translations; forward model
    c09_sim.forward, written from the formulas, independent of cImageD11.compute_gv)
+ * memory layouts (ScoreAssignLayout.tla): lay_gv / lay_ubi realise a logical array under a named address map / item
+   type (C, F, strided, reversed, binary32, integer, byte swapped, unaligned, read only); realise() returns the arrays to
+   hand over together with their LOGICAL binary64 values (numpy only), which every expectation is computed from;
+   build_indexer makes an indexer the ways the library does (indexer(gv=), indexer_from_colfile,
+   indexer_from_colfile_and_ucell, readgvfile, .gv assigned) optionally followed by assigntorings()
 """
 import io, os, contextlib
 import numpy as np
@@ -23,6 +28,177 @@ BLOCK = 64
 CHUNK = 4096
 THREADS = (1, 2, 3, 5, 8, 16, 32)
 LABMAPS = {"one": (1, 0), "zero": (0, 9)}        # name -> (kernel label of model label 1, a value that is no presented label)
+
+# ---------------------------------------------------------------------------------------------
+# memory layouts: the names are the constants GvLayouts / UbiLayouts / Builds / Preps of ScoreAssignLayout.tla
+GV_LAYOUTS = ("C", "F", "rows2", "cols2", "rev", "f32", "f32F", "i64", "i32F", "be", "unaligned", "readonly")
+UBI_LAYOUTS = ("C", "F", "strided", "f32", "list", "i64")
+BUILDS = ("indexer", "from_colfile", "from_colfile_and_ucell", "set_gv", "readgvfile")
+PREPS = ("direct", "rings")
+PLAIN = ("C", "C", "indexer", "direct")
+INT_LAYOUTS = ("i64", "i32F")
+# layouts that keep binary64 values bit for bit (usable for detector columns, where the reference is formed from the values)
+SAME_VALUE_LAYOUTS = ("C", "F", "rows2", "cols2", "rev", "be", "unaligned", "readonly")
+
+
+def combos():
+    """Combos of ScoreAssignLayout.tla"""
+    out = []
+    for gl in GV_LAYOUTS:
+        for ul in UBI_LAYOUTS:
+            for b in BUILDS:
+                for p in PREPS:
+                    if (ul == "C" or (gl in ("C", "F") and b == "indexer" and p == "direct")) and (b != "readgvfile" or gl == "C"):
+                        out.append((gl, ul, b, p))
+    return out
+
+
+def _unaligned(a):
+    """a C ordered copy of `a` whose buffer starts one byte off the item alignment"""
+    buf = bytearray(a.nbytes + 1)
+    u = np.frombuffer(buf, dtype=a.dtype, count=a.size, offset=1).reshape(a.shape)
+    u[...] = a
+    return u
+
+
+def lay_gv(g, name):
+    """the (n,3) array g under the named layout (Addr of ScoreAssignLayout.tla); values are converted to the item type"""
+    g = np.asarray(g)
+    n = len(g)
+    if name == "C":
+        a = np.ascontiguousarray(g, float).copy()
+    elif name == "F":
+        a = np.array((g[:, 0], g[:, 1], g[:, 2]), float).T            # what the library's indexer_from_colfile hands over
+    elif name == "rows2":
+        big = np.full((2 * n, 3), np.nan)
+        big[::2] = g
+        a = big[::2]
+    elif name == "cols2":
+        big = np.full((n, 6), np.nan)
+        big[:, ::2] = g
+        a = big[:, ::2]
+    elif name == "rev":
+        a = np.ascontiguousarray(g[::-1], float).copy()[::-1]
+    elif name == "f32":
+        a = np.ascontiguousarray(g, np.float32).copy()
+    elif name == "f32F":
+        a = np.asfortranarray(np.asarray(g, np.float32)).copy(order="F")
+    elif name == "i64":
+        a = np.ascontiguousarray(np.rint(g)).astype(np.int64)
+    elif name == "i32F":
+        a = np.asfortranarray(np.rint(g).astype(np.int32)).copy(order="F")
+    elif name == "be":
+        a = np.ascontiguousarray(g, float).astype(">f8")
+    elif name == "unaligned":
+        a = _unaligned(np.ascontiguousarray(g, float))
+    elif name == "readonly":
+        a = np.ascontiguousarray(g, float).copy()
+        a.flags.writeable = False
+    else:
+        raise common.MachineryError("unknown g-vector layout %r" % (name,))
+    if a.shape != (n, 3):
+        raise common.MachineryError("layout %s: shape %s" % (name, a.shape))
+    return a
+
+
+def lay_ubi(u, name):
+    u = np.asarray(u, float)
+    if name == "C":
+        return np.ascontiguousarray(u).copy()
+    if name == "F":
+        return np.asfortranarray(u).copy(order="F")
+    if name == "strided":
+        big = np.full((6, 6), np.nan)
+        big[::2, ::2] = u
+        return big[::2, ::2]
+    if name == "f32":
+        return u.astype(np.float32)
+    if name == "list":
+        return [[float(x) for x in row] for row in u]
+    if name == "i64":
+        if not np.array_equal(u, np.rint(u)):
+            raise common.MachineryError("integer UBI layout needs integer valued UBIs")
+        return np.rint(u).astype(np.int64)
+    raise common.MachineryError("unknown UBI layout %r" % (name,))
+
+
+def logical(a):
+    """the values an array stands for, as a fresh C ordered binary64 array (numpy only)"""
+    return np.array(np.asarray(a).tolist(), float) if isinstance(a, list) else np.ascontiguousarray(np.asarray(a), float).copy()
+
+
+def realise(gv, ubis, glay, ulay, scale):
+    """(a, ul, gvl, ubl, sc): the arrays to hand over under (glay, ulay) and their logical binary64 values.  Integer
+    g-vectors are the g-vectors times `scale` (a power of two), the UBIs divided by it; sc = the factor applied (1 or scale)"""
+    sc = float(scale) if glay in INT_LAYOUTS else 1.0
+    a = lay_gv(np.asarray(gv, float) * sc, glay)
+    if ulay == "i64" and sc != 1.0:
+        raise common.MachineryError("integer UBIs with integer g-vectors")
+    ul = [lay_ubi(np.asarray(u, float) / sc, ulay) for u in ubis]
+    return a, ul, logical(a), [logical(u) for u in ul], sc
+
+
+def columns(a):
+    """gx gy gz as the columns of the array itself (views, nothing copied)"""
+    return {"gx": a[:, 0], "gy": a[:, 1], "gz": a[:, 2]}
+
+
+def write_gv_file(path, gvl, cell, lattice, wavelength):
+    """a g-vector file in the format indexer.readgvfile reads (written by the harness; repr() round trips binary64)"""
+    ds = np.sqrt((gvl * gvl).sum(axis=1))
+    with open(path, "w") as f:
+        f.write("%r %r %r %r %r %r %s\n" % (tuple(float(x) for x in cell) + (lattice,)))
+        f.write("# wavelength = %r\n# wedge = 0.0\n# ds h k l\n# xr yr zr xc yc ds eta omega\n" % (float(wavelength),))
+        for k in range(len(gvl)):
+            f.write("%r %r %r %r %r %r 10.0 %r\n" % (float(gvl[k, 0]), float(gvl[k, 1]), float(gvl[k, 2]), float(k % 1000), float(k // 1000),
+                                                      float(ds[k]), float(k % 360)))
+
+
+def build_indexer(mods, a, gvl, tol, build, prep, sc=1.0, cell_a=4.0, wavelength=0.3):
+    """an indexer over the g-vectors `a` (logical values gvl) made the way `build` names, then prepared as `prep` names.
+    The unit cell (cubic P, edge cell_a / sc) and the wavelength only serve assigntorings(); they have no part in the
+    assignment"""
+    indexing, unitcell, columnfile, parameters = mods["indexing"], mods["unitcell"], mods["columnfile"], mods["parameters"]
+    ca, w = cell_a / sc, wavelength / sc
+    cell = [ca, ca, ca, 90.0, 90.0, 90.0]
+    kw = {"hkl_tol": tol, "ds_tol": 0.01 * sc}
+    with quiet():
+        if build == "indexer":
+            ind = indexing.indexer(unitcell=unitcell.unitcell(cell, "P"), gv=a, wavelength=w, **kw)
+        elif build == "set_gv":
+            # made over OTHER g-vectors (the same ones in reverse order), then given these: what is assigned is .gv as it
+            # is when the assignment is asked for, not a copy kept from the construction (.gvflat)
+            ind = indexing.indexer(unitcell=unitcell.unitcell(cell, "P"), gv=gvl[::-1].copy(), wavelength=w, **kw)
+            ind.gv = a
+        elif build in ("from_colfile", "from_colfile_and_ucell"):
+            cols = columns(a)
+            cols["omega"] = np.arange(len(a), dtype=float) % 360.0
+            cf = columnfile.colfile_from_dict(cols)
+            cf.parameters = parameters.parameters(**{"cell__a": ca, "cell__b": ca, "cell__c": ca, "cell_alpha": 90.0, "cell_beta": 90.0,
+                                                     "cell_gamma": 90.0, "cell_lattice_[P,A,B,C,I,F,R]": "P", "wavelength": w})
+            if build == "from_colfile":
+                ind = indexing.indexer_from_colfile(cf, **kw)
+            else:
+                ind = indexing.indexer_from_colfile_and_ucell(cf, unitcell.unitcell(cell, "P"), **kw)
+        elif build == "readgvfile":
+            path = os.path.join(common.scratch(), "c07_%d.gve" % os.getpid())
+            write_gv_file(path, gvl, cell, "P", w)
+            ind = indexing.indexer(**kw)
+            ind.readgvfile(path, quiet=True)
+            os.remove(path)
+        else:
+            raise common.MachineryError("unknown build %r" % (build,))
+        if prep == "rings":
+            ind.assigntorings()
+        elif prep != "direct":
+            raise common.MachineryError("unknown prep %r" % (prep,))
+    if len(ind.gv) != len(gvl):
+        raise RuntimeError("indexer built by %s holds %d of the %d peaks" % (build, len(ind.gv), len(gvl)))      # reported as a violation
+    return ind
+
+
+def lay_tag(lay):
+    return "g-vectors %s, UBIs %s, %s, %s" % tuple(lay)
 
 
 class omp(object):
@@ -115,6 +291,14 @@ class Packed(object):
     def tile(self, total):
         return np.arange(total) % self.P
 
+    def arrays(self, idx, lay):
+        """the tiled g-vectors and the table UBIs under the layout `lay` = (glay, ulay, build, prep): (a, ul, gvl, sc).
+        The tables are exact in every item type: binary32 holds the dyadic values, integer g-vectors are 64 gv with UBI / 64"""
+        a, ul, gvl, ubl, sc = realise(self.gv1[idx], self.ubis, lay[0], lay[1], 64)
+        if not np.array_equal(gvl, self.gv1[idx] * sc) or any(not np.array_equal(x, u / sc) for x, u in zip(ubl, self.ubis)):
+            raise common.MachineryError("layout %s does not hold the table's values" % (lay,))
+        return a, ul, gvl, sc
+
     def drval(self, d, init):
         d = np.asarray(d)
         return np.where(d >= 3, init, LEVELV[np.minimum(d, 3)] ** 2)
@@ -126,10 +310,14 @@ class Packed(object):
         """the behaviour behind tiled peak j"""
         return self.cases[int(self.case_of[idx[j]])]
 
-    def run_raw(self, c, threads, total, labmap="one", inits=(1.0, 2.0), perturb=False):
-        """raw score_and_assign calls; returns [(what, case)]"""
+    def run_raw(self, c, threads, total, labmap="one", inits=(1.0, 2.0), perturb=False, lay=PLAIN, scramble=False):
+        """raw score_and_assign calls; returns [(what, case)].  scramble (self-test only): hand over the array flattened in
+        memory order, what a layout-blind caller would do"""
         idx = self.tile(total)
-        gv = np.ascontiguousarray(self.gv1[idx])
+        gv, ubis, _, _ = self.arrays(idx, lay)
+        if scramble:
+            gv = np.ravel(gv, order="K").reshape(-1, 3)
+        ltag = "" if tuple(lay[:2]) == PLAIN[:2] else ", g-vectors %s, UBIs %s" % (lay[0], lay[1])
         probs = []
         for nt in threads:
             for init in inits:
@@ -137,15 +325,15 @@ class Packed(object):
                 drlv2 = self.drval(self.dr0, init)[idx].copy()
                 with omp(c, nt):
                     for i, r in enumerate(self.order):
-                        n = c.score_and_assign(self.ubis[r - 1], gv, TOL, drlv2, labels, self.kernel_label(r, labmap))
+                        n = c.score_and_assign(ubis[r - 1], gv, TOL, drlv2, labels, self.kernel_label(r, labmap))
                         elab = to_kernel(self.snap_lab[i], labmap)[idx]
                         if perturb:
                             elab = elab.copy()
                             elab[0] = elab[0] + 1
                         edr = self.drval(self.snap_dr[i], init)[idx]
                         en = int(self.takes[i][idx].sum())
-                        tag = "score_and_assign (threads=%d, %d peaks, labels %s-based, call %d of %s)" % (
-                            nt, total, labmap, i + 1, self.order)
+                        tag = "score_and_assign (threads=%d, %d peaks, labels %s-based, call %d of %s%s)" % (
+                            nt, total, labmap, i + 1, self.order, ltag)
                         bad = np.nonzero(labels != elab)[0]
                         if len(bad):
                             probs.append(("%s: labels differ from the specification at %d peaks, first %d: %d vs %d" % (
@@ -173,6 +361,8 @@ class Packed(object):
     def _judge_final(self, tag, got_lab, got_dr, init, idx):
         want, wdr = self._final(idx)
         probs = []
+        if np.shape(got_lab) != want.shape or (got_dr is not None and np.shape(got_dr) != want.shape):
+            return [("%s: %s labels / %s stored errors for %d peaks" % (tag, np.shape(got_lab), np.shape(got_dr), len(want)), self.cases[0])]
         bad = np.nonzero(np.asarray(got_lab) != want)[0]
         if len(bad):
             probs.append(("%s: labels differ from the specification at %d peaks, first %d: %s vs %s" % (
@@ -191,18 +381,17 @@ class Packed(object):
                               self.describe(bad[0], idx)))
         return probs
 
-    def run_fight(self, c, indexing, threads, total):
+    def run_fight(self, c, mods, threads, total, lay=PLAIN):
         """indexer.fight_over_peaks: labels -1, drlv2 2, labels = list positions; -> .ga .gas .drlv2"""
         idx = self.tile(total)
-        gv = np.ascontiguousarray(self.gv1[idx])
+        gv, ubis, gvl, sc = self.arrays(idx, lay)
         probs = []
         for nt in threads:
-            with quiet():
-                ind = indexing.indexer(gv=gv, hkl_tol=TOL)
-            ind.ubis = [self.ubis[r - 1] for r in self.order]
+            ind = build_indexer(mods, gv, gvl, TOL, lay[2], lay[3], sc=sc, cell_a=0.25, wavelength=0.05)
+            ind.ubis = [ubis[r - 1] for r in self.order]
             with omp(c, nt), quiet():
                 ind.fight_over_peaks()
-            tag = "indexer.fight_over_peaks (threads=%d, %d peaks, order %s)" % (nt, total, self.order)
+            tag = "indexer.fight_over_peaks (threads=%d, %d peaks, order %s, %s)" % (nt, total, self.order, lay_tag(lay))
             probs += self._judge_final(tag, ind.ga, ind.drlv2, 2.0, idx)
             want, _ = self._final(idx)
             hist = np.bincount(want[want >= 0], minlength=len(self.order)).tolist()
@@ -212,66 +401,74 @@ class Packed(object):
                 break
         return probs
 
-    def run_nb(self, c, mods, threads, total):
-        """nbGui.nb_utils.assign_peaks_to_grains: labels ZERO filled, drlv2 1, labels = list positions"""
+    def run_nb(self, c, mods, threads, total, lay=PLAIN):
+        """nbGui.nb_utils.assign_peaks_to_grains: labels ZERO filled, drlv2 1, labels = list positions; the columns gx gy gz
+        are the columns of the laid out array itself"""
         idx = self.tile(total)
-        gv = self.gv1[idx]
+        gv, ubis, _, _ = self.arrays(idx, lay)
         probs = []
         for nt in threads:
-            cf = mods["columnfile"].colfile_from_dict({"gx": gv[:, 0].copy(), "gy": gv[:, 1].copy(), "gz": gv[:, 2].copy()})
-            grains = [mods["grain"].grain(self.ubis[r - 1]) for r in self.order]
+            cf = mods["columnfile"].colfile_from_dict(columns(gv))
+            grains = [mods["grain"].grain(ubis[r - 1]) for r in self.order]
             with omp(c, nt), quiet():
                 mods["nb_utils"].assign_peaks_to_grains(grains, cf, TOL)
-            tag = "nb_utils.assign_peaks_to_grains (threads=%d, %d peaks, order %s)" % (nt, total, self.order)
+            tag = "nb_utils.assign_peaks_to_grains (threads=%d, %d peaks, order %s, g-vector columns %s, UBIs %s)" % (
+                nt, total, self.order, lay[0], lay[1])
             probs += self._judge_final(tag, np.rint(np.asarray(cf.grain_id)).astype(int), np.asarray(cf.drlv2, float), 1.0, idx)
             if probs:
                 break
         return probs
 
-    def run_getind(self, c, indexing, total):
-        """indexer.getind: labels 0, drlv2 1, label 1; work buffers supplied dirty, and the defaults"""
+    def run_getind(self, c, mods, total, lay=PLAIN):
+        """indexer.getind: labels 0, drlv2 1, label 1; work buffers supplied dirty, and the defaults (after assigntorings()
+        the default buffers are sized by the peaks on rings: supplied buffers only, see observe_getind_default)"""
         idx = self.tile(total)
-        gv = np.ascontiguousarray(self.gv1[idx])
+        gv, ubis, gvl, sc = self.arrays(idx, lay)
         want, _ = self._final(idx)
-        with quiet():
-            ind = indexing.indexer(gv=gv, hkl_tol=TOL)
+        ind = build_indexer(mods, gv, gvl, TOL, lay[2], lay[3], sc=sc, cell_a=0.25, wavelength=0.05)
         probs = []
-        for how in ("dirty buffers", "default buffers"):
+        for how in (("dirty buffers", "default buffers") if lay[3] == "direct" else ("dirty buffers",)):
             kw = {}
             if how == "dirty buffers":
                 kw = {"drlv2tmp": np.full(total, 1e-9), "labelstmp": np.full(total, 1, np.int32)}
             with quiet():
-                m = ind.getind(self.ubis[self.order[0] - 1], **kw)
-            bad = np.nonzero(np.asarray(m, bool) != (want == 0))[0]
+                m = ind.getind(ubis[self.order[0] - 1], **kw)
+            bad = np.nonzero(np.asarray(m, bool) != (want == 0))[0] if np.shape(m) == (total,) else [0]
             if len(bad):
-                probs.append(("indexer.getind (%s, %d peaks): the mask is not the set of peaks the UBI indexes (%d peaks differ)" % (
-                    how, total, len(bad)), self.describe(bad[0], idx)))
+                probs.append(("indexer.getind (%s, %d peaks, %s): the mask is not the set of peaks the UBI indexes (%d peaks differ)" % (
+                    how, total, lay_tag(lay), len(bad)), self.describe(bad[0], idx)))
         return probs
 
-    def run_sino(self, c, mods, total, grain_label):
+    def run_sino(self, c, mods, total, grain_label, lay=PLAIN):
         """GrainSinogram.prepare_peaks_from_2d: labels 0, drlv2 1, one grain under any label (0 included)"""
         idx = self.tile(total)
-        gv = self.gv1[idx]
+        gv, ubis, _, _ = self.arrays(idx, lay)
         want, _ = self._final(idx)
-        cf = mods["columnfile"].colfile_from_dict({
-            "gx": gv[:, 0].copy(), "gy": gv[:, 1].copy(), "gz": gv[:, 2].copy(), "dty": np.arange(total, dtype=float),
-            "omega": np.zeros(total), "eta": np.zeros(total), "sum_intensity": np.ones(total)})
+        cf = mods["columnfile"].colfile_from_dict(dict(
+            columns(gv), dty=np.arange(total, dtype=float), omega=np.zeros(total), eta=np.zeros(total), sum_intensity=np.ones(total)))
         with quiet():
-            gs = mods["sinogram"].GrainSinogram(mods["grain"].grain(self.ubis[self.order[0] - 1]), mods["dataset"].DataSet())
+            gs = mods["sinogram"].GrainSinogram(mods["grain"].grain(ubis[self.order[0] - 1]), mods["dataset"].DataSet())
             gs.prepare_peaks_from_2d(cf, grain_label, hkltol=TOL)
         got = np.zeros(total, bool)
         got[np.rint(np.asarray(gs.cf_for_sino.dty)).astype(int)] = True
         bad = np.nonzero(got != (want == 0))[0]
         if len(bad):
-            return [("GrainSinogram.prepare_peaks_from_2d(grain_label=%d, %d peaks): the peaks kept are not the peaks the grain indexes "
-                     "(%d differ, first %d kept=%s)" % (grain_label, total, len(bad), bad[0], bool(got[bad[0]])), self.describe(bad[0], idx))]
+            return [("GrainSinogram.prepare_peaks_from_2d(grain_label=%d, %d peaks, g-vector columns %s, UBI %s): the peaks kept are not the "
+                     "peaks the grain indexes (%d differ, first %d kept=%s)" % (grain_label, total, lay[0], lay[1], len(bad), bad[0],
+                                                                                 bool(got[bad[0]])), self.describe(bad[0], idx))]
         return []
 
 
+def rec_lay(t):
+    """the layout tags of an emitted behaviour (ScoreAssign.tla emits none: everything plain)"""
+    return (t.get("glay", "C"), t.get("ulay", "C"), t.get("build", "indexer"), t.get("prep", "direct"))
+
+
 def group_by_order(recs):
+    """behaviours that share the presentation sequence and the layout tags"""
     out = {}
     for t in recs:
-        out.setdefault(tuple(t["order"]), []).append(t)
+        out.setdefault((tuple(t["order"]), rec_lay(t)), []).append(t)
     return out
 
 
@@ -495,9 +692,11 @@ def geo_errs(sc, fc, omega, grains, pars):
     return np.array([c09_sim.hkl_errors(sc, fc, omega, ubi, t, pars) for (ubi, t) in grains])
 
 
-def run_assignlabels(c, mods, case, grains, order, tol, nt, stale=None):
+def run_assignlabels(c, mods, case, grains, order, tol, nt, stale=None, lay=None):
     """refinegrains.assignlabels on in-memory data: grainnames (= labels) presented in `order` (0-based labels).
-    stale: (labels, drlv2) columns the scan already carries.  returns labels, drlv2 columns and npks per label"""
+    stale: (labels, drlv2) columns the scan already carries.  lay = (layout of the (n,3) array whose columns are sc fc omega -
+    value preserving layouts only -, UBI layout; translations as lists); None: separate contiguous columns, C ordered UBIs.
+    returns labels, drlv2 columns and npks per label"""
     n = len(case["sc"])
     PP = dict(case["pars"])
     PP["t_x"], PP["t_y"], PP["t_z"] = 11.0, -13.0, 17.0          # not any grain's position: the grains' own must be used
@@ -505,13 +704,24 @@ def run_assignlabels(c, mods, case, grains, order, tol, nt, stale=None):
         rg = mods["refinegrains"].refinegrains(tolerance=tol, OmFloat=False)
     rg.parameterobj = mods["parameters"].parameters(**PP)
     lab0, dr0 = (np.full(n, -1.0), np.ones(n)) if stale is None else stale
-    cf = mods["columnfile"].colfile_from_dict({"sc": case["sc"].copy(), "fc": case["fc"].copy(), "omega": case["omega"].copy(),
-                                               "drlv2": np.asarray(dr0, float).copy(), "labels": np.asarray(lab0, float).copy()})
+    sc_, fc_, om_ = case["sc"].copy(), case["fc"].copy(), case["omega"].copy()
+    if lay is not None:
+        if lay[0] not in SAME_VALUE_LAYOUTS:
+            raise common.MachineryError("detector columns need a value preserving layout")
+        tab = lay_gv(np.array((sc_, fc_, om_)).T, lay[0])
+        if not np.array_equal(logical(tab), np.array((sc_, fc_, om_)).T):
+            raise common.MachineryError("layout %s changed the detector columns" % lay[0])
+        sc_, fc_, om_ = tab[:, 0], tab[:, 1], tab[:, 2]
+    cf = mods["columnfile"].colfile_from_dict({"sc": sc_, "fc": fc_, "omega": om_,
+                                               "drlv2": np.array(dr0), "labels": np.array(lab0)})           # copies, item type kept
     rg.scannames, rg.scantitles, rg.scandata = ["scan"], {"scan": list(cf.titles)}, {"scan": cf}
     rg.grainnames = [int(g) for g in order]
     rg.grains = {}
     for gi, (ubi, t) in enumerate(grains):
-        gr = mods["grain"].grain(ubi.copy(), translation=np.array(t, float).copy())
+        if lay is None:
+            gr = mods["grain"].grain(ubi.copy(), translation=np.array(t, float).copy())
+        else:
+            gr = mods["grain"].grain(lay_ubi(ubi, lay[1]), translation=[float(x) for x in t])
         gr.name = "%d:scan" % gi
         rg.grains[(gi, "scan")] = gr
     with omp(c, nt), quiet(), np.errstate(invalid="ignore", divide="ignore"):
